@@ -468,7 +468,11 @@ class ParserText(ParserBase):
     def parse_date_time(self, name):
         try:
             value = self._parsable[self._parsed_length:]
-            date_time = dateutil.parser.parse(six.ensure_text(value, self._encoding))
+            text = six.ensure_text(value, self._encoding)
+            date_time = dateutil.parser.parse(text, default=datetime.datetime(1970, 1, 1))
+            if date_time != dateutil.parser.parse(text, default=datetime.datetime(2001, 3, 2)):
+                # dateutil completes a missing year, month or day from the default, that is from the current date
+                raise ValueError(text)
             date_time.utcoffset()  # dateutil accepts '+9900', datetime raises ValueError for offsets >= 24 hours
         except (ValueError, ArithmeticError) as e:
             six.raise_from(InvalidValue(value, type(self), 'value'), e)
